@@ -73,7 +73,7 @@ ASSUMPTIONS = [
     "tensor (case['prime']) use the same quantizer object: q.scale must "
     "describe the latest call",
 ]
-BUDGET_S = {"quick": 40, "thorough": 800}
+BUDGET_S = {"quick": 30, "thorough": 800}
 REQUIRED_LABELS = {
     t: ["quantized_bits", "quantized_linear", "alpha:auto", "alpha:auto_po2",
         "rank1", "rank2", "rank3", "rank4", "axis_int", "axis_list", "eps",
